@@ -52,6 +52,9 @@ pub mod c18_keyboard;
 pub mod c19_pairing;
 
 #[cfg(kani)]
+pub mod live_decoder;
+
+#[cfg(kani)]
 pub mod playback;
 
 /// Prints the decoded inputs of a harness - only in the native replay of a counterexample
